@@ -355,3 +355,122 @@ package fpgo
 //@   invariant keys-unchanged: forallv(x, has(SS(result), x) == has(SS(streamSetSelf), x))
 //@   invariant untouched-keys-copied: forallv(x, has(SS(result), x) && (!SUBTRACTS(x) || !_visited(x)) ==> (SS(streamSetSelf)[x] == nil ==> SS(result)[x] == nil) && (SS(streamSetSelf)[x] != nil ==> SS(result)[x] != nil && fresh(SS(result)[x]) && fresh(*SS(result)[x]) && seqeq(*SS(result)[x], *SS(streamSetSelf)[x])))
 //@   invariant subtracted: forallv(x, has(SS(result), x) && SUBTRACTS(x) && _visited(x) ==> SS(result)[x] != nil && fresh(SS(result)[x]) && (SS(streamSetSelf)[x] == nil ==> len(*SS(result)[x]) == 0) && (SS(streamSetSelf)[x] != nil ==> len(*SS(result)[x]) <= len(*SS(streamSetSelf)[x]) && forall(j, 0, len(*SS(result)[x]), CONTAINS(*SS(streamSetSelf)[x], (*SS(result)[x])[j]) && !CONTAINS(*SS(input)[x], (*SS(result)[x])[j]))))
+
+// ===================================================================================================
+// C04 / C05 - SetForInterfaceDef, the interface{} twin of MapSetDef: the same characterisations as the generic family above
+// (fresh result map, receiver and arguments never written, keys and values as defined; the receiver itself when there is
+// nothing to do), by key: the value stored under a key that is merely "present" is not specified for this family (the generic twin stores the zero
+// value of its value type, which an interface{} set cannot know; the twins agree on keys).
+//@ func (SetForInterfaceDef).Size
+//@   prop C04,C05
+//@   requires setSelf != nil
+//@   ensures def: r0 == len(*setSelf)
+//@ func (SetForInterfaceDef).ContainsKey
+//@   prop C04,C05
+//@   requires setSelf != nil
+//@   ensures def: r0 == has(*setSelf, input)
+//@ func (SetForInterfaceDef).Get
+//@   prop C04,C05
+//@   requires setSelf != nil
+//@   ensures def: r0 == (*setSelf)[key]
+//@ func (SetForInterfaceDef).Set
+//@   prop C04,C05
+//@   modifies *setSelf
+//@   requires setSelf != nil && *setSelf != nil
+//@   ensures stored: has(*setSelf, key) && (*setSelf)[key] == value && forallv(x, x != key ==> has(*setSelf, x) == old(has(*setSelf, x)) && (*setSelf)[x] == old((*setSelf)[x]))
+
+//@ func (SetForInterfaceDef).Clone
+//@   prop C04,C05
+//@   requires setSelf != nil
+//@   ensures copy: r0 != nil && fresh(r0) && *r0 != nil && fresh(*r0) && forallv(x, has(*r0, x) == has(*setSelf, x)) && forallv(x, has(*setSelf, x) ==> (*r0)[x] == (*setSelf)[x])
+
+//@ func (SetForInterfaceDef).Add
+//@   prop C04,C05
+//@   requires setSelf != nil
+//@   ensures nothing-to-add: len(input) == 0 ==> r0 == setSelf
+//@   ensures fresh-result: len(input) > 0 ==> r0 != nil && fresh(r0) && *r0 != nil && fresh(*r0)
+//@   ensures keys: len(input) > 0 ==> forallv(x, has(*r0, x) == (has(*setSelf, x) || exists(i, 0, len(input), input[i] == x)))
+//@   ensures old-values-kept: len(input) > 0 ==> forallv(x, has(*setSelf, x) ==> (*r0)[x] == (*setSelf)[x])
+//@ func (SetForInterfaceDef).Add loop 0
+//@   invariant result: result != nil && fresh(result) && *result != nil && fresh(*result)
+//@   invariant keys: forallv(x, has(*result, x) == (has(*setSelf, x) || exists(i, 0, _i, input[i] == x)))
+//@   invariant old-values-kept: forallv(x, has(*setSelf, x) ==> (*result)[x] == (*setSelf)[x])
+
+//@ func (SetForInterfaceDef).RemoveKeys
+//@   prop C04,C05
+//@   requires setSelf != nil
+//@   ensures nothing-to-remove: len(input) == 0 ==> r0 == setSelf
+//@   ensures fresh-result: len(input) > 0 ==> r0 != nil && fresh(r0) && *r0 != nil && fresh(*r0)
+//@   ensures keys: len(input) > 0 ==> forallv(x, has(*r0, x) == (has(*setSelf, x) && !exists(i, 0, len(input), input[i] == x)))
+//@   ensures values-kept: len(input) > 0 ==> forallv(x, has(*r0, x) ==> (*r0)[x] == (*setSelf)[x])
+//@ func (SetForInterfaceDef).RemoveKeys loop 0
+//@   invariant result: result != nil && fresh(result) && *result != nil && fresh(*result)
+//@   invariant keys: forallv(x, has(*result, x) == (has(*setSelf, x) && !exists(i, 0, _i, input[i] == x)))
+//@   invariant values-kept: forallv(x, has(*result, x) ==> (*result)[x] == (*setSelf)[x])
+
+//@ func (SetForInterfaceDef).Minus
+//@   prop C04,C05
+//@   requires setSelf != nil
+//@   ensures nothing-to-remove: input == nil || len(*input) == 0 ==> r0 == setSelf
+//@   ensures fresh-result: input != nil && len(*input) > 0 ==> r0 != nil && fresh(r0) && *r0 != nil && fresh(*r0)
+//@   ensures keys: input != nil && len(*input) > 0 ==> forallv(x, has(*r0, x) == (has(*setSelf, x) && !has(*input, x)))
+//@   ensures values-kept: input != nil && len(*input) > 0 ==> forallv(x, has(*r0, x) ==> (*r0)[x] == (*setSelf)[x])
+//@ func (SetForInterfaceDef).Minus loop 0
+//@   invariant result: result != nil && fresh(result) && *result != nil && fresh(*result) && *result == _m
+//@   invariant keys: forallv(x, has(*result, x) == (has(*setSelf, x) && !(_visited(x) && has(*input, x))))
+//@   invariant iterating-the-copy: forall(j, 0, _n, has(*setSelf, _keyat(j)))
+//@   invariant values-kept: forallv(x, has(*result, x) ==> (*result)[x] == (*setSelf)[x])
+
+//@ func (SetForInterfaceDef).Union
+//@   prop C04,C05
+//@   requires setSelf != nil
+//@   ensures nothing-to-add: input == nil || len(*input) == 0 ==> r0 == setSelf
+//@   ensures fresh-result: input != nil && len(*input) > 0 ==> r0 != nil && fresh(r0) && *r0 != nil && fresh(*r0)
+//@   ensures keys: input != nil && len(*input) > 0 ==> forallv(x, has(*r0, x) == (has(*setSelf, x) || has(*input, x)))
+//@   ensures values: input != nil && len(*input) > 0 ==> forallv(x, (has(*input, x) ==> (*r0)[x] == (*input)[x]) && (has(*setSelf, x) && !has(*input, x) ==> (*r0)[x] == (*setSelf)[x]))
+
+//@ func SetForInterfaceFromArray
+//@   prop C04,C05
+//@   ensures made: r0 != nil && fresh(r0) && fresh(*r0) && forallv(x, has(*r0, x) == exists(i, 0, len(list), list[i] == x))
+//@ func SetForInterfaceFrom
+//@   prop C04,C05
+//@   ensures made: r0 != nil && fresh(r0) && fresh(*r0) && forallv(x, has(*r0, x) == exists(i, 0, len(list), list[i] == x))
+//@ func SetForInterfaceFromMap
+//@   prop C04,C05
+//@   ensures made: r0 != nil && fresh(r0) && fresh(*r0) && forallv(x, has(*r0, x) == has(theMap, x))
+
+// StreamSetForInterfaceDef: key -> interface{} holding nil or a non-nil *StreamForInterfaceDef (SSI_WF); STI(s, x) is that stream.
+//@ define SSI(s) = s.SetForInterfaceDef
+//@ define STI(s, x) = asptr(SSI(s)[x], StreamForInterfaceDef)
+//@ define SSI_WF(s) = forallv(x, has(SSI(s), x) ==> untyped(SSI(s)[x]) || (isptr(SSI(s)[x], StreamForInterfaceDef) && STI(s, x) != nil))
+//@ define SUBTRACTSI(k) = has(SSI(input), k) && !untyped(SSI(input)[k]) && len(*STI(input, k)) > 0
+
+//@ func NewStreamSetForInterface
+//@   prop C04,C05
+//@   ensures empty: r0 != nil && fresh(r0) && SSI(r0) != nil && fresh(SSI(r0)) && len(SSI(r0)) == 0 && forallv(x, !has(SSI(r0), x))
+
+//@ func (StreamSetForInterfaceDef).Clone
+//@   prop C04,C05
+//@   requires streamSetSelf != nil && SSI_WF(streamSetSelf)
+//@   ensures fresh-result: r0 != nil && fresh(r0) && SSI(r0) != nil && fresh(SSI(r0))
+//@   ensures same-keys: forallv(x, has(SSI(r0), x) == has(SSI(streamSetSelf), x))
+//@   ensures deep: forallv(x, has(SSI(r0), x) ==> (untyped(SSI(streamSetSelf)[x]) ==> untyped(SSI(r0)[x])) && (!untyped(SSI(streamSetSelf)[x]) ==> isptr(SSI(r0)[x], StreamForInterfaceDef) && STI(r0, x) != nil && fresh(STI(r0, x)) && fresh(*STI(r0, x)) && seqeq(*STI(r0, x), *STI(streamSetSelf, x))))
+//@ func (StreamSetForInterfaceDef).Clone loop 0
+//@   invariant result: result != nil && fresh(result) && SSI(result) != nil && fresh(SSI(result)) && SSI(result) == _m
+//@   invariant same-keys: forallv(x, has(SSI(result), x) == has(SSI(streamSetSelf), x))
+//@   invariant visited-deep: forallv(x, _visited(x) ==> (untyped(SSI(streamSetSelf)[x]) ==> untyped(SSI(result)[x])) && (!untyped(SSI(streamSetSelf)[x]) ==> isptr(SSI(result)[x], StreamForInterfaceDef) && STI(result, x) != nil && fresh(STI(result, x)) && fresh(*STI(result, x)) && seqeq(*STI(result, x), *STI(streamSetSelf, x))))
+//@   invariant rest-shared: forallv(x, has(SSI(result), x) && !_visited(x) ==> SSI(result)[x] == SSI(streamSetSelf)[x])
+
+//@ func (StreamSetForInterfaceDef).MinusStreams
+//@   prop C04,C05
+//@   requires streamSetSelf != nil && SSI_WF(streamSetSelf) && (input != nil ==> SSI_WF(input))
+//@   ensures empty-operand: input == nil || len(SSI(input)) == 0 ==> r0 != nil && fresh(r0) && len(SSI(r0)) == 0
+//@   ensures fresh-result: input != nil && len(SSI(input)) > 0 ==> r0 != nil && fresh(r0) && SSI(r0) != nil && fresh(SSI(r0))
+//@   ensures keys-unchanged: input != nil && len(SSI(input)) > 0 ==> forallv(x, has(SSI(r0), x) == has(SSI(streamSetSelf), x))
+//@   ensures untouched-keys-copied: input != nil && len(SSI(input)) > 0 ==> forallv(x, has(SSI(r0), x) && !SUBTRACTSI(x) ==> (untyped(SSI(streamSetSelf)[x]) ==> untyped(SSI(r0)[x])) && (!untyped(SSI(streamSetSelf)[x]) ==> isptr(SSI(r0)[x], StreamForInterfaceDef) && STI(r0, x) != nil && fresh(STI(r0, x)) && seqeq(*STI(r0, x), *STI(streamSetSelf, x))))
+//@   ensures subtracted: input != nil && len(SSI(input)) > 0 ==> forallv(x, has(SSI(r0), x) && SUBTRACTSI(x) ==> isptr(SSI(r0)[x], StreamForInterfaceDef) && STI(r0, x) != nil && fresh(STI(r0, x)) && (untyped(SSI(streamSetSelf)[x]) ==> len(*STI(r0, x)) == 0) && (!untyped(SSI(streamSetSelf)[x]) ==> len(*STI(r0, x)) <= len(*STI(streamSetSelf, x)) && forall(j, 0, len(*STI(r0, x)), CONTAINS(*STI(streamSetSelf, x), (*STI(r0, x))[j]) && !CONTAINS(*STI(input, x), (*STI(r0, x))[j]))))
+//@ func (StreamSetForInterfaceDef).MinusStreams loop 0
+//@   invariant result: result != nil && fresh(result) && SSI(result) != nil && fresh(SSI(result)) && SSI(result) == _m
+//@   invariant keys-unchanged: forallv(x, has(SSI(result), x) == has(SSI(streamSetSelf), x))
+//@   invariant untouched-keys-copied: forallv(x, has(SSI(result), x) && (!SUBTRACTSI(x) || !_visited(x)) ==> (untyped(SSI(streamSetSelf)[x]) ==> untyped(SSI(result)[x])) && (!untyped(SSI(streamSetSelf)[x]) ==> isptr(SSI(result)[x], StreamForInterfaceDef) && STI(result, x) != nil && fresh(STI(result, x)) && fresh(*STI(result, x)) && seqeq(*STI(result, x), *STI(streamSetSelf, x))))
+//@   invariant subtracted: forallv(x, has(SSI(result), x) && SUBTRACTSI(x) && _visited(x) ==> isptr(SSI(result)[x], StreamForInterfaceDef) && STI(result, x) != nil && fresh(STI(result, x)) && (untyped(SSI(streamSetSelf)[x]) ==> len(*STI(result, x)) == 0) && (!untyped(SSI(streamSetSelf)[x]) ==> len(*STI(result, x)) <= len(*STI(streamSetSelf, x)) && forall(j, 0, len(*STI(result, x)), CONTAINS(*STI(streamSetSelf, x), (*STI(result, x))[j]) && !CONTAINS(*STI(input, x), (*STI(result, x))[j]))))
